@@ -59,20 +59,28 @@ def classify(case, impl, model, oracle):
 
 
 def gen_rdset(rng, tier):
-    """RdataSetOwned::from_iter at the buffer level: lengths around the u16 byte split, duplicates,
-    case variants for the single-name types, empty RDATA."""
+    """RdataSetOwned::from_iter at the buffer level: lengths around the u16 byte split, duplicates, empty RDATA, and
+    (real Rdata::equals) every name-bearing type with case variants of the embedded names, fixed-field variants and
+    malformed RDATA (compared octet-wise), in the classes where SRV / A change their comparison rule."""
     n = 4000 if tier == "quick" else 200000
+    named = list(zg.ONE_NAME_TYPES) + [zg.T_MX, zg.T_MX, zg.T_SOA, zg.T_SOA, zg.T_MINFO, zg.T_SRV, zg.T_SRV, zg.T_A]
     for _ in range(n):
-        ty = rng.choice([1, 16, 16, 2, 5, 12, 99])
         cls = rng.choice([1, 1, 3, 7])
         pool = []
-        for _ in range(rng.randint(1, 4)):
-            if ty in (2, 5, 12):
-                pool.append(zg.wire(zg.flip_case(rng, [rng.choice(["6e73", "61", "6162"])] + rng.choice([[], ["63"]]), 0.4)))
-            else:
-                ln = rng.choice([0, 1, 2, 4, 16, 255, 256, 257, 300, 511, 512, 513, rng.randint(0, 700)])
-                b = rng.choice(["00", "61", "ff"])
-                pool.append((b * ln) or "-")
+        if rng.random() < 0.6:
+            ty = rng.choice(named)
+            apex = rng.choice(zg.APEXES)
+            while len(pool) < rng.randint(1, 4):
+                pool += zg.name_record_burst(rng, ty, cls, apex) or [rng.choice(zg.A_POOL)]
+        else:
+            ty = rng.choice([1, 16, 16, 2, 5, 12, 99])
+            for _ in range(rng.randint(1, 4)):
+                if ty in (2, 5, 12):
+                    pool.append(zg.wire(zg.flip_case(rng, [rng.choice(["6e73", "61", "6162"])] + rng.choice([[], ["63"]]), 0.4)))
+                else:
+                    ln = rng.choice([0, 1, 2, 4, 16, 255, 256, 257, 300, 511, 512, 513, rng.randint(0, 700)])
+                    b = rng.choice(["00", "61", "ff"])
+                    pool.append((b * ln) or "-")
         k = rng.randint(1, 8)
         yield f"B {cls} {ty} {','.join(rng.choice(pool) for _ in range(k))}"
 
@@ -92,8 +100,11 @@ def classify_rdset(case, impl, model, oracle):
     return f"kept{len(kept)}of{len(given)}"
 
 
-RDSET_RULE = ("RdataSetOwned::from_iter on 1..8 RDATAs drawn with repetition from a pool of <=4 (lengths 0,1,2,4,16,255,256,257,300,"
-              "511,512,513 and random <=700; valid names with case variants for NS/CNAME/PTR), classes IN/CH/7; compared: the RDATAs "
+RDSET_RULE = ("RdataSetOwned::from_iter on 1..8 RDATAs drawn with repetition from a pool of <=4..6: 40% opaque (lengths 0,1,2,4,16,255,256,257,300,"
+              "511,512,513 and random <=700; valid names with case variants for NS/CNAME/PTR), 60% name-bearing (NS/CNAME/PTR/MB/MG/MR/MD/MF, "
+              "MX, SOA, MINFO, SRV, A: a base RDATA plus variants differing only in the letter case of the embedded names, in a fixed "
+              "field, or malformed — junk octet, missing root label, 64-octet label, pointer, >255-octet name, leading root label; names "
+              "with 63-octet labels and of exactly 255 octets), classes IN/CH/7; compared: the RDATAs "
               "iter() yields, against the octet-buffer model and against the spec's first-occurrence de-duplication; "
               "non-trivial = a duplicate was dropped or an RDATA of >=256 octets is present")
 
